@@ -216,17 +216,17 @@ def dense_dag(seed_parts, p_choices=(6,), min_density=0.7, max_edges=13):
     return out
 
 
-def ring_pdag(seed_parts):
+def ring_pdag(seed_parts, Lrange=(4, 10), pmax=10, styles=(0, 1, 2, 3)):
     """A chordless cycle on 4..9 of p nodes (p up to 10), each ring edge undirected or directed (consistently or not),
     plus optional pendant edges; relabelled.  Long chordless cycles are where reachability shortcuts go wrong."""
     rng = util.rng_for(*seed_parts)
-    L = int(rng.integers(4, 10))
+    L = int(rng.integers(Lrange[0], Lrange[1]))
     p = L + int(rng.integers(0, 3))
-    p = min(p, 10)
+    p = min(p, pmax)
     L = min(L, p)
     nodes = [int(v) for v in rng.permutation(p)]
     out = [0] * p
-    style = int(rng.integers(0, 4))
+    style = int(styles[int(rng.integers(0, len(styles)))])
     for t in range(L):
         a, b = nodes[t], nodes[(t + 1) % L]
         r = rng.random()
